@@ -63,11 +63,14 @@ where
     // to add a 1 after the rest of the array, it doesn't matter where,
     // just move it up. This is good for the worst-possible float
     // representation. We also need to return an index.
-    // Since we already trimmed trailing zeros, we know there has
-    // to be a non-zero digit if there are any left.
+    // Only the fraction had its trailing zeros trimmed, so the digits
+    // that are left may all be zeros of the integer part, which must not
+    // count as a non-zero digit.
     if i < integer.len() + fraction.len() {
         result.imul_small(10);
-        result.iadd_small(1);
+        if integer.iter().chain(fraction).skip(i).any(|&digit| digit != b'0') {
+            result.iadd_small(1);
+        }
     }
 
     result
